@@ -33,11 +33,15 @@ func mkImage(kind string, w, h, ox, oy int, sub bool, f pixFn) image.Image {
 	want := image.Rect(ox, oy, ox+w, oy+h)
 	rel := func(x, y int) (uint8, uint8, uint8) { return f(x-ox, y-oy) }
 	switch kind {
-	case "RGBA":
+	case "RGBA", "RGBAa":
 		m := image.NewRGBA(full)
 		for y := full.Min.Y; y < full.Max.Y; y++ {
 			for x := full.Min.X; x < full.Max.X; x++ {
 				r, g, b := rel(x, y)
+				if kind == "RGBAa" && transparentAt(x-ox, y-oy) {
+					m.SetRGBA(x, y, color.RGBA{}) // fully transparent (premultiplied colour 0): the slot must still be written
+					continue
+				}
 				m.SetRGBA(x, y, color.RGBA{r, g, b, 255})
 			}
 		}
